@@ -447,14 +447,15 @@ def _call_precedes(g, first_short, then_id):
 
 # ====================================================================================== TAIL
 class TailClient(Client):
-    def __init__(self, report):
+    def __init__(self, report, prog=None):
         self.report = report
+        self.prog = prog
 
     def is_event(self, n):
         return n.get('k') in ('call', 'new')
 
     def event(self, n, s):
-        kind, det = R.role(n)
+        kind, det = R.role_via(self.prog, n)
         if n.get('k') == 'call' and A.callee(n) == 'amc::vec::swap_deep':
             return [('n', s | {'c', 'd'})]     # relocates the surplus elements of one operand into the other
         if kind in ('construct', 'hole_consume'):
@@ -486,7 +487,7 @@ def tail(progs):
 
             def report(n, ok, why):
                 res[id(n)] = (res.get(id(n), (True, n, why))[0] and ok, n, why)
-            Engine(TailClient(report)).run(body, frozenset(), f.get('inits'))
+            Engine(TailClient(report, prog)).run(body, frozenset(), f.get("inits"))
             for ok, n, why in res.values():
                 rr.instance('%s|%s' % (f['key'], A.cshort(n)), {'function': f['pname'][:150], 'commit': A.cshort(n), 'ok': ok})
                 if not ok:
